@@ -28,7 +28,7 @@ Geoms ==
   { Geo(-1, << <<0, 0>>, <<0, 1>>, <<0, 0>> >>, 2, 2, 1, 2),
     Geo(0, << <<0, 1>> >>, 2, 3, 1, 3),
     Geo(-1, << <<0, 0>>, <<0, 1>>, <<0, 0>> >>, 2, 2, 3, 1),
-    Geo(-1, << <<0, 1>>, <<0, 2>>, <<0, 0>> >>, 2, 2, 1, 2),        \* asymmetric axial sizes 2/3/1
+    Geo(-1, << <<0, 1>>, <<0, 2>>, <<0, 0>> >>, 2, 2, 1, 1),        \* asymmetric axial sizes 2/3/1
     Geo(-1, << <<0, 1>>, <<0, 2>>, <<0, 1>>, <<0, 0>> >>, 2, 2, 1, 2),   \* 4 segments, asymmetric range -1..2, pairs of requests
     Geo(-2, << <<0, 0>>, <<0, 1>>, <<0, 2>>, <<0, 1>>, <<0, 0>> >>, 2, 1, 1, 1),  \* 5 segments: 120 permutations
     Geo(-1, << <<1, 1>>, <<0, 2>>, <<1, 1>> >>, 2, 2, 3, 1),        \* TOF, axial ranges not starting at 0
